@@ -1,0 +1,31 @@
+//go:build verif
+
+package beacon
+
+// Contracts for govc (see /verif/DESIGN.md). Comment-only: no declarations.
+
+//@ func NewForkDecoder(spec, genesisValRoot) d
+//@   property C14
+//@   requires spec != nil
+//@   ensures d != nil && d.Spec == spec
+//@   ensures genesis: forall k :: 0 <= k < 4 ==> d.Genesis[k] == fork_data_root(spec.GENESIS_FORK_VERSION, genesisValRoot)[k]
+//@   ensures altair: forall k :: 0 <= k < 4 ==> d.Altair[k] == fork_data_root(spec.ALTAIR_FORK_VERSION, genesisValRoot)[k]
+//@   ensures bellatrix: forall k :: 0 <= k < 4 ==> d.Bellatrix[k] == fork_data_root(spec.BELLATRIX_FORK_VERSION, genesisValRoot)[k]
+//@   ensures capella: forall k :: 0 <= k < 4 ==> d.Capella[k] == fork_data_root(spec.CAPELLA_FORK_VERSION, genesisValRoot)[k]
+//@   ensures deneb: forall k :: 0 <= k < 4 ==> d.Deneb[k] == fork_data_root(spec.DENEB_FORK_VERSION, genesisValRoot)[k]
+//@   ensures electra: forall k :: 0 <= k < 4 ==> d.Electra[k] == fork_data_root(spec.ELECTRA_FORK_VERSION, genesisValRoot)[k]
+//@   ensures fulu: forall k :: 0 <= k < 4 ==> d.Fulu[k] == fork_data_root(spec.FULU_FORK_VERSION, genesisValRoot)[k]
+
+// The digest of the fork the specification's compute_fork_version selects for
+// the epoch (fork_idx, /verif/spec/forks.gvc), for ordered fork epochs.
+//@ func (d *ForkDecoder) ForkDigest(epoch) r
+//@   property C14
+//@   requires d != nil && d.Spec != nil
+//@   requires ordered: d.Spec.ALTAIR_FORK_EPOCH <= d.Spec.BELLATRIX_FORK_EPOCH && d.Spec.BELLATRIX_FORK_EPOCH <= d.Spec.CAPELLA_FORK_EPOCH && d.Spec.CAPELLA_FORK_EPOCH <= d.Spec.DENEB_FORK_EPOCH && d.Spec.DENEB_FORK_EPOCH <= d.Spec.ELECTRA_FORK_EPOCH && d.Spec.ELECTRA_FORK_EPOCH <= d.Spec.FULU_FORK_EPOCH
+//@   ensures phase0: fork_idx(epoch, d.Spec.ALTAIR_FORK_EPOCH, d.Spec.BELLATRIX_FORK_EPOCH, d.Spec.CAPELLA_FORK_EPOCH, d.Spec.DENEB_FORK_EPOCH, d.Spec.ELECTRA_FORK_EPOCH, d.Spec.FULU_FORK_EPOCH) == 0 ==> r == d.Genesis
+//@   ensures altair: fork_idx(epoch, d.Spec.ALTAIR_FORK_EPOCH, d.Spec.BELLATRIX_FORK_EPOCH, d.Spec.CAPELLA_FORK_EPOCH, d.Spec.DENEB_FORK_EPOCH, d.Spec.ELECTRA_FORK_EPOCH, d.Spec.FULU_FORK_EPOCH) == 1 ==> r == d.Altair
+//@   ensures bellatrix: fork_idx(epoch, d.Spec.ALTAIR_FORK_EPOCH, d.Spec.BELLATRIX_FORK_EPOCH, d.Spec.CAPELLA_FORK_EPOCH, d.Spec.DENEB_FORK_EPOCH, d.Spec.ELECTRA_FORK_EPOCH, d.Spec.FULU_FORK_EPOCH) == 2 ==> r == d.Bellatrix
+//@   ensures capella: fork_idx(epoch, d.Spec.ALTAIR_FORK_EPOCH, d.Spec.BELLATRIX_FORK_EPOCH, d.Spec.CAPELLA_FORK_EPOCH, d.Spec.DENEB_FORK_EPOCH, d.Spec.ELECTRA_FORK_EPOCH, d.Spec.FULU_FORK_EPOCH) == 3 ==> r == d.Capella
+//@   ensures deneb: fork_idx(epoch, d.Spec.ALTAIR_FORK_EPOCH, d.Spec.BELLATRIX_FORK_EPOCH, d.Spec.CAPELLA_FORK_EPOCH, d.Spec.DENEB_FORK_EPOCH, d.Spec.ELECTRA_FORK_EPOCH, d.Spec.FULU_FORK_EPOCH) == 4 ==> r == d.Deneb
+//@   ensures electra: fork_idx(epoch, d.Spec.ALTAIR_FORK_EPOCH, d.Spec.BELLATRIX_FORK_EPOCH, d.Spec.CAPELLA_FORK_EPOCH, d.Spec.DENEB_FORK_EPOCH, d.Spec.ELECTRA_FORK_EPOCH, d.Spec.FULU_FORK_EPOCH) == 5 ==> r == d.Electra
+//@   ensures fulu: fork_idx(epoch, d.Spec.ALTAIR_FORK_EPOCH, d.Spec.BELLATRIX_FORK_EPOCH, d.Spec.CAPELLA_FORK_EPOCH, d.Spec.DENEB_FORK_EPOCH, d.Spec.ELECTRA_FORK_EPOCH, d.Spec.FULU_FORK_EPOCH) == 6 ==> r == d.Fulu
